@@ -27,6 +27,45 @@ def write_layout(base, files):
             f.write(text)
 
 
+def make_symlinks(base, links):
+    """{link path: target}, both relative to the layout root; the target is stored relative to the link"""
+    for link, target in (links or {}).items():
+        lp = os.path.join(base, link)
+        os.makedirs(os.path.dirname(lp), exist_ok=True)
+        os.symlink(os.path.relpath(os.path.join(base, target), os.path.dirname(lp)), lp)
+
+
+def future_mask():
+    import __future__
+    m = 0
+    for name in __future__.all_feature_names:
+        m |= getattr(__future__, name).compiler_flag
+    return m
+
+
+def compile_glue(case, script_file, prof_mod, text):
+    """The code object the real autoprofile.run() hands to exec (captured by shadowing the name
+    `exec` in that module's globals, nothing is executed) against a plain compile of the file:
+    same filename, same compiler (__future__) flags."""
+    from line_profiler.autoprofile import autoprofile
+    import line_profiler
+    got = {}
+
+    def fake_exec(code, *_a, **_k):
+        got['code'] = code
+    autoprofile.exec = fake_exec
+    try:
+        autoprofile.run(script_file, {autoprofile.PROFILER_LOCALS_NAME: line_profiler.LineProfiler()}, list(prof_mod),
+                        profile_imports=bool(case['imports']), as_module=bool(case.get('module')))
+    finally:
+        del autoprofile.exec
+    ref = compile(text, script_file, 'exec', dont_inherit=True)
+    mask = future_mask()
+    code = got['code']
+    return dict(flags=code.co_flags & mask, ref_flags=ref.co_flags & mask,
+                filename_ok=(code.co_filename == script_file))
+
+
 def inproc(case, base):
     """What autoprofile.run() would build for this case (without executing it)."""
     import kernprof
@@ -71,6 +110,11 @@ def inproc(case, base):
                 out['compile_err'] = None
             except Exception as e:  # noqa
                 out['compile_err'] = type(e).__name__
+            if out['compile_err'] is None:
+                try:
+                    out['glue'] = compile_glue(case, script_file, prof_mod, text)
+                except Exception as e:  # noqa
+                    out['glue'] = dict(error=type(e).__name__)
         except Exception as e:  # noqa
             out['err'] = type(e).__name__
             out.setdefault('S', None)
@@ -117,6 +161,7 @@ def main():
             os.makedirs(base)
             bases.append(base)
             write_layout(base, case['files'])
+            make_symlinks(base, case.get('symlinks'))
         for case, base in zip(payload['cases'], bases):
             r = {}
             if case.get('inproc', True):
